@@ -220,7 +220,9 @@ func (s *memoryStore) RemoveNode(nodeID store.NodeID) error {
 // empty list, if none are available.
 func (s *memoryStore) ActiveHosts(kind string, limit int) ([]store.Node, error) {
 	seenSince := time.Now().Add(-store.ExpireInterval)
-	r := make([]store.Node, 0, limit)
+	// Don't size the result by limit: it comes straight from a peer request
+	// and can be far larger than the number of nodes we have.
+	r := []store.Node{}
 
 	s.mu.Lock()
 	defer s.mu.Unlock()
